@@ -8,6 +8,7 @@
 //   - Factory.GetAnthropicSupport(rawType)          (what tryPassthrough calls)
 //   - the anthropic_support of the loader's profile NormalizeProviderName(rawType)   (the endpoint's own profile)
 //   - Factory.ValidateProfileType(rawType)          (is the type accepted in a config at all)
+//
 // plus the constants of the passthrough / translation split obtained by RUNNING the
 // translator (PreparePassthrough / TransformRequest target paths, X-Olla-Mode, mode names)
 // and the profile filter the inspector chain derives for the Anthropic route.
@@ -126,6 +127,32 @@ func main() {
 		vlib.LeanTuple("false", "true", vlib.LeanBool(off.CanPassthrough(one, fac))),
 		vlib.LeanTuple("false", "false", vlib.LeanBool(off.CanPassthrough(nil, fac))),
 	}), "(passthrough_enabled, capable subset non-empty, CanPassthrough)")
+	// config.Load: what a file says about the translator section and what the loaded configuration says
+	{
+		var rows []string
+		for _, en := range []bool{true, false} {
+			for _, pt := range []bool{true, false} {
+				for _, mx := range []int64{0, 1 << 20, 10 << 20} {
+					tmp, err := os.CreateTemp("", "gen-profiles-*.yaml")
+					if err != nil {
+						die("temp file: %v", err)
+					}
+					fmt.Fprintf(tmp, "translators:\n  anthropic:\n    enabled: %v\n    passthrough_enabled: %v\n    max_message_size: %d\n", en, pt, mx)
+					tmp.Close()
+					cfg, err := config.Load(tmp.Name())
+					os.Remove(tmp.Name())
+					if err != nil {
+						rows = append(rows, vlib.LeanTuple(vlib.LeanBool(en), vlib.LeanBool(pt), vlib.LeanInt(mx), "false", "false", "false"))
+						continue
+					}
+					a := cfg.Translators.Anthropic
+					rows = append(rows, vlib.LeanTuple(vlib.LeanBool(en), vlib.LeanBool(pt), vlib.LeanInt(mx), "true", vlib.LeanBool(a.Enabled), vlib.LeanBool(a.PassthroughEnabled)))
+				}
+			}
+		}
+		f.Def("loadedTranslatorSection", "List (Bool × Bool × Int × Bool × Bool × Bool)", vlib.LeanList(rows),
+			"config.Load: (enabled, passthrough_enabled, max_message_size in the file; loaded without error, enabled and passthrough_enabled in the loaded configuration)")
+	}
 	f.Def("defaultPassthroughEnabled", "Bool", vlib.LeanBool(config.DefaultConfig().Translators.Anthropic.PassthroughEnabled), "config.DefaultConfig().Translators.Anthropic.PassthroughEnabled")
 
 	// ---- the platform filter the inspector chain derives for the Anthropic route (stage 1 of filterEndpointsByProfile)
